@@ -18,28 +18,28 @@ VARIABLES users, depth, last
 vars == <<users, depth, last>>
 View == <<users, depth>>
 
-\* who is who at the beginning
-Names    == {"alice", "bob", "boss", "eve", "ghost"}
+\* who is who at the beginning ("Alice" is an administrator whose name differs from "alice" only by case)
+Names    == {"alice", "bob", "Alice", "eve", "ghost"}
 Targets  == Names \cup {"../evil"}                    \* plus a name outside the grammar
 InitUsers == [n \in Names |->
     CASE n = "alice" -> [present |-> TRUE,  adm |-> FALSE, pw |-> "pw-alice"]
       [] n = "bob"   -> [present |-> TRUE,  adm |-> FALSE, pw |-> "pw-bob"]
-      [] n = "boss"  -> [present |-> TRUE,  adm |-> TRUE,  pw |-> "pw-boss"]
+      [] n = "Alice"  -> [present |-> TRUE,  adm |-> TRUE,  pw |-> "pw-Alice"]
       [] n = "eve"   -> [present |-> TRUE,  adm |-> FALSE, pw |-> "pw-eve"]   \* was admin when her token was issued
       [] n = "ghost" -> [present |-> FALSE, adm |-> FALSE, pw |-> ""]]
 
 \* session credentials: valid tokens by owner, and the ways a token can be invalid
-ValidSess   == {"tok-alice", "tok-bob", "tok-boss", "tok-eve-staleadmin"}
+ValidSess   == {"tok-alice", "tok-bob", "tok-Alice", "tok-eve-staleadmin"}
 InvalidSess == {"garbage", "expired", "tampered", "other-instance", "future"}
 Sess        == {"none"} \cup ValidSess \cup InvalidSess
 OldPw       == {"none", "right", "wrong"}
 Endpoints   == {"add", "remove", "set-admin", "list", "list-full", "update", "authenticate"}
 Bodies      == {"ok", "empty-user", "empty-pw", "malformed", "wrongtype", "extra-field"}
 
-Owner(s) == CASE s = "tok-alice" -> "alice" [] s = "tok-bob" -> "bob" [] s = "tok-boss" -> "boss"
+Owner(s) == CASE s = "tok-alice" -> "alice" [] s = "tok-bob" -> "bob" [] s = "tok-Alice" -> "Alice"
               [] s = "tok-eve-staleadmin" -> "eve" [] OTHER -> ""
 \* the admin flag a token carries is the status at login time
-TokAdmin(s) == s \in {"tok-boss", "tok-eve-staleadmin"}
+TokAdmin(s) == s \in {"tok-Alice", "tok-eve-staleadmin"}
 
 Known(t) == t \in Names /\ users[t].present
 
